@@ -11,7 +11,8 @@
    04fd1df / 14f58ba.  Check/C04.v ties the float32 instance (ar = f32, fixed = true) to
    /repo on every run; the tables are regenerated from the source on every run. *)
 From Verif Require Import Css.Defaulting Css.DefaultingSpec Css.DefaultingTyping Css.DefaultingProofs Css.DefaultingTables
-                          Css.DefaultingEquations Css.DefaultingTotal Css.DefaultingSpecProofs.
+                          Css.DefaultingEquations Css.DefaultingTotal Css.DefaultingSpecProofs
+                          Css.DefaultingCopy Css.DefaultingCopyProofs.
 From Coq Require Import QArith List.
 Import ListNotations.
 Open Scope N_scope.
@@ -133,6 +134,35 @@ Theorem C04_anonymous_spec : forall (ar : arith) (t : tree) (n : N) (nd : node) 
          end.
 Proof. intros ar t n nd j p WF. exact (anonymous_equations ar t WF n nd j p). Qed.
 Print Assumptions C04_anonymous_spec.
+
+(* ------------------------------------------------------------------ copied styles *)
+
+(* ComputedStyle.Copy / AnonymousStyle.Copy (Css/DefaultingCopy.v: `copy_style`): the copy is a
+   new style object built from the same inputs as its source, i.e. a node `dst` with
+   `node_at t dst = node_at t src`.  Such duplicates have the same computed values ... *)
+Theorem C04_copy_computes_like_source : forall (ar : arith) (fixed : bool) (t : tree) (src dst : N) (nd : node) (p : N),
+  wf_tree t = true -> node_at t src = Some nd -> node_at t dst = Some nd ->
+  computed ar fixed t dst p = computed ar fixed t src p.
+Proof. intros ar fixed t src dst nd p WF. exact (dup_computed ar fixed t WF src dst nd p). Qed.
+Print Assumptions C04_copy_computes_like_source.
+
+(* ... and cache transparency extends to histories in which styles are copied at ANY point
+   (table wrappers, flex items, columns, leaders copy a style in the middle of the layout):
+   every Get -- on a copy (whatever had been read on the source before the copy, whatever
+   is first read on the copy: rem / em / ex-relative lengths included), on its source after
+   the copy, on any other style -- returns the cache-free computed value.  What Copy()
+   carries over (the cache, the root font size) and what it computes again (specified
+   position / display / float) are covered by the invariant. *)
+Theorem C04_cache_transparent_with_copies : forall (ar : arith) (fixed : bool) (t : tree) (ops : list xop),
+  wf_tree t = true ->
+  xhist_ok t [] ops ->
+  xsucceed ops (snd (run_xops ar fixed t empty_styles ops)) ->
+  Forall2 (fun o r => match o with
+                      | XGet n p => forall v, computed ar fixed t n p = Ok v -> r = Ok (Some v)
+                      | _ => True
+                      end) ops (snd (run_xops ar fixed t empty_styles ops)).
+Proof. intros ar fixed t ops WF. exact (copy_transparent ar fixed t WF ops). Qed.
+Print Assumptions C04_cache_transparent_with_copies.
 
 (* ------------------------------------------------------------------ tables (regenerated from the source) *)
 
